@@ -137,6 +137,9 @@ def step(w, ev):
             else:
                 with w.t.at_root(rh) as snap:
                     w.t2 = snap
+        elif a == "checkout":
+            # handle 1 goes back to a root it (or handle 2) had before
+            w.t.root_hash = w.rz.root_hash(ev["root"])
         elif a == "begin":
             w.cm = w.t.squash_changes()
             w.batch = w.cm.__enter__()
